@@ -239,9 +239,10 @@ def gen_path(r, regions, opts):
             # arc about a centre; keep it on a grid so that it is exact
             rad = r.choice([2.0, 3.0, 5.0])
             cw = r.random() < 0.5
-            cx, cy = x + rad, y
+            t = r.choice([0, 0, 1, 2, 3])       # centre to the right of / above / left of / below the start
+            cx, cy = x + rad * (1, 0, -1, 0)[t], y + rad * (0, 1, 0, -1)[t]
             quarter = r.choice([1, 2, 3, 4])
-            ang = math.pi + (-1 if cw else 1) * quarter * math.pi / 2
+            ang = math.pi + t * math.pi / 2 + (-1 if cw else 1) * quarter * math.pi / 2
             ex = round(cx + rad * math.cos(ang), 6)
             ey = round(cy + rad * math.sin(ang), 6)
             ops.append(("arc", cw, ex, ey, cx, cy, 0.0 if retracted else r.choice([0.0, 0.5])))
